@@ -27,7 +27,7 @@ TASK_LIMIT_S = {"quick": 200, "thorough": 2400}
 
 
 def bounds(tier):
-    return ("streams with reads <= 12 bytes: all partitions and all timeout placements (fixpoint by state merging); "
+    return ("streams with reads <= 12 bytes (thorough: one 16-byte read as well): all partitions and all timeout placements (fixpoint by state merging); "
             "130-byte and 65550-byte frames: at most %d non-default answers per execution" % (2 if tier == "quick" else 3))
 
 
@@ -55,6 +55,23 @@ def build_stream(name):
         return R.encode(R.TEXT, b"\xe2\x82", fin=0) + R.encode(R.CONT, b"\xac", fin=1) + R.encode(R.PONG, b"")
     if name == "ping-ping-text":
         return R.encode(R.PING, b"1") + R.encode(R.PING, b"") + R.encode(R.TEXT, b"t")
+    if name == "text16":
+        return R.encode(R.TEXT, b"0123456789abcdef") + R.encode(R.PING, b"x")
+    if name == "len16-3":
+        return R.encode(R.TEXT, b"abc", lenform=16) + R.encode(R.BINARY, b"z")
+    if name == "masked-len64-3":
+        return R.encode(R.BINARY, b"\x00\xff\x7f", lenform=64, mask=b"\x01\x02\x03\x04")
+    if name == "three-frag-pings":
+        return (R.encode(R.TEXT, b"a", fin=0) + R.encode(R.PING, b"1") + R.encode(R.CONT, b"", fin=0) + R.encode(R.PONG, b"") +
+                R.encode(R.CONT, "\u00e9".encode(), fin=1) + R.encode(R.PING, b""))
+    if name == "close-reason":
+        return R.encode(R.BINARY, b"b") + R.encode(R.CLOSE, b"\x03\xe9bye", mask=b"\x09\x08\x07\x06") + R.encode(R.TEXT, b"never")
+    if name == "bin-125":
+        return R.encode(R.BINARY, ramp(125)) + R.encode(R.TEXT, b"t")
+    if name == "two-len16":
+        return R.encode(R.BINARY, ramp(130)) + R.encode(R.TEXT, bytes(65 + (i % 26) for i in range(127)), mask=b"\x10\x20\x30\x40")
+    if name == "bad-utf8-frag":
+        return R.encode(R.TEXT, b"ok\xe2", fin=0) + R.encode(R.CONT, b"\x28\xa1", fin=1) + R.encode(R.TEXT, b"after")
     if name == "big":
         return R.encode(R.BINARY, ramp(65550), mask=b"\xa1\xb2\xc3\xd4") + R.encode(R.TEXT, b"z")
     if name == "bad-rsv":
@@ -62,8 +79,9 @@ def build_stream(name):
     raise KeyError(name)
 
 
-SMALL = ["text7", "masked", "len64-3", "frag-ping", "text-close", "two", "utf8-split", "ping-ping-text", "bad-rsv"]
-LARGE = ["len16-126", "big"]
+SMALL = ["text7", "masked", "len64-3", "frag-ping", "text-close", "two", "utf8-split", "ping-ping-text", "bad-rsv",
+         "len16-3", "masked-len64-3", "three-frag-pings", "close-reason", "bad-utf8-frag"]
+LARGE = ["len16-126", "big", "bin-125", "two-len16"]
 DRIVERS = ["recv", "recv_data_frame", "recv_frame", "next"]
 
 
@@ -82,6 +100,11 @@ def tasks(tier, seed):
         for d in (["recv"] if tier == "quick" else ["recv", "recv_data_frame", "recv_frame"]):
             ts.append({"name": "%s/%s" % (s, d), "stream": s, "driver": d, "bound": b if s != "big" or tier == "quick" else 2,
                        "kinds": kinds, "hs": False})
+    if tier == "thorough":
+        # complete partitions of reads up to 16 bytes (2^15 chunkings of the largest read)
+        for s in ("masked-len64-3", "len64-3", "three-frag-pings"):
+            ts.append({"name": "%s/recv/full16" % s, "stream": s, "driver": "recv", "bound": None, "kinds": kinds, "hs": False, "full_upto": 16})
+        ts.append({"name": "text16/recv/full16", "stream": "text16", "driver": "recv", "bound": None, "kinds": ["timeout"], "hs": False, "full_upto": 16})
     ts.append({"name": "hs+big/recv", "stream": "big", "driver": "recv", "bound": 1, "kinds": kinds, "hs": True})
     # "for msg in ws" (a generator cannot be resumed after an exception): segmentation only
     for s in ["frag-ping", "two"]:
@@ -143,11 +166,12 @@ class Harness:
         self.driver = desc["driver"]
         self.kinds = desc["kinds"]
         self.expected = expected_obs(self.stream, "recv" if self.driver in ("next", "iter") else self.driver)
+        self.full_upto = desc.get("full_upto", 12)
         self.depth_cap = 6 * min(len(self.stream), 400) + 200
         self.capped = False
 
     def ks(self, m):
-        if m <= 12:
+        if m <= self.full_upto:
             return list(range(1, m + 1))
         return sorted({1, 2, 3, m // 2, m - 2, m - 1, m})
 
